@@ -44,8 +44,12 @@ PopTag(grp, G, p) ==
 CDomModel(grp, G, k, seed) ==
   LET S == ToSet(grp.cdoms[k].s)  Z == ToSet(grp.cdoms[k].z)
       lat == LatOf(G)
-  IN ModelF(RemoveIn(G, Z), [j \in DOMAIN lat |-> lat[j] \ Z], CardOf(G),
-            [v \in G.n |-> IF v \in S \cup Z THEN k ELSE 0], seed)
+      star == "star" \in DOMAIN grp.cdoms[k] /\ grp.cdoms[k].star
+  IN \* a domain declared with the target's own population tag: the target under a policy that keeps the graph
+     \* (the library's validator demands the target graph; the policy variables then keep their parents)
+     IF star THEN ModelF(G, lat, CardOf(G), [v \in G.n |-> IF v \in Z THEN k ELSE 0], seed)
+     ELSE ModelF(RemoveIn(G, Z), [j \in DOMAIN lat |-> lat[j] \ Z], CardOf(G),
+                 [v \in G.n |-> IF v \in S \cup Z THEN k ELSE 0], seed)
 ModelsOf(grp, G, seed) ==
   IF "cdoms" \in DOMAIN grp
   THEN [p \in 0..Len(grp.cdoms) |-> IF p = 0 THEN ModelF(G, LatOf(G), CardOf(G), NoTag(G), seed) ELSE CDomModel(grp, G, p, seed)]
@@ -333,8 +337,17 @@ JudgeCtf(grp, G, Ws, r) ==
                  ELSE IF c.ndef = 0 THEN Verdict(r.id, FALSE, "undefined-everywhere", c)
                  ELSE Verdict(r.id, TRUE, "ok", c)
 
+\* ancestral components: exactly Definition 4.2
+JudgeComp(G, r) ==
+  CASE r.out.k = "exc" -> Verdict(r.id, FALSE, "raised", NoCmp)
+    [] r.out.k = "comps" ->
+         LET got == {{VarKey(c[i]) : i \in DOMAIN c} : c \in ToSet(r.out.cs)}
+             want == AncestralComponents(G, ToSet(r.w), ToSet(r.x))
+         IN IF got = want THEN Verdict(r.id, TRUE, "ok", NoCmp) ELSE Verdict(r.id, FALSE, "not-the-definition", NoCmp)
+
 Judge(G, Ws, r) ==
   CASE r.k = "do"  -> JudgeDo(G, Ws, r)
+    [] r.k = "comp"  -> JudgeComp(G, r)
     [] r.k = "min"   -> JudgeMin(G, Ws, r)
     [] r.k = "simp"  -> JudgeSimp(G, Ws, r)
     [] r.k = "anc"   -> JudgeAnc(G, r)
